@@ -434,9 +434,71 @@ def pers_stale_rule(ctx):
     return r
 
 
+def pers_hist_rule(ctx):
+    """PERS-HIST.  Whatever a module learns from the data it is shown -- a running statistic, a bound widened
+    to the inputs seen in training, a counter -- and later reads in forward / inverse / sampling determines
+    the function and has to travel in the state dict.  Per module class: a method other than the constructor
+    that assigns `self.a = E` / `self.a op= E` with E computed from the method's own arguments (through
+    locals) makes `a` data-dependent state; if `a` is read by another method and is neither a parameter nor
+    a persistent buffer (a plain attribute, a non-persistent buffer), a freshly built model that loads the
+    state dict starts from the constructor's value instead."""
+    from .ld_rules import _roots_of
+
+    p = ctx.p
+    res = RuleResult("PERS-HIST", "state computed from the data seen (assigned from a method's arguments outside the constructor) and read by evaluation is a parameter or a persistent buffer")
+    n = 0
+    for cls in p.all_classes():
+        if not cls.is_nn_module():
+            continue
+        table = p.attrs(cls)
+        # methods on the data path: the entry points that are shown data, and what they call on self
+        allm = {}
+        for c in reversed(cls.repo_mro()):
+            allm.update(c.methods)
+        calls = {nm: {x.func.attr for x in ast.walk(fi.node) if isinstance(x, ast.Call) and isinstance(x.func, ast.Attribute) and isinstance(x.func.value, ast.Name) and x.func.value.id == "self" and x.func.attr in allm} for nm, fi in allm.items()}
+        on_path, todo = set(), [e for e in ("forward", "inverse", "log_prob", "_log_prob", "sample", "_sample", "sample_and_log_prob", "inverse_transform", "transform_to_noise", "__call__") if e in allm]
+        while todo:
+            x = todo.pop()
+            if x in on_path:
+                continue
+            on_path.add(x)
+            todo.extend(calls.get(x, ()))
+        for mname, m in cls.methods.items():
+            if mname in ("__init__", "_load_from_state_dict", "load_state_dict", "_apply", "__setstate__") or mname not in on_path:
+                continue
+            params = {a for a, _ in m.params()} - {"self"}
+            for st in ast.walk(m.node):
+                tgts = []
+                if isinstance(st, ast.Assign):
+                    tgts = [(t, st.value) for t in st.targets]
+                elif isinstance(st, ast.AugAssign):
+                    tgts = [(st.target, st.value)]
+                for t, v in tgts:
+                    if not (isinstance(t, ast.Attribute) and isinstance(t.value, ast.Name) and t.value.id == "self"):
+                        continue
+                    n += 1
+                    roots = _roots_of(v, m.node)
+                    if not (roots & params):
+                        continue
+                    ai = table.get(t.attr)
+                    kind = ai.kind if ai is not None else "PLAIN"
+                    if kind == "PARAM" or (kind == "BUFFER" and ai.extra is True):
+                        res.ok("%s.%s: data-dependent state %s is a %s" % (cls.name, mname, t.attr, "parameter" if kind == "PARAM" else "persistent buffer"))
+                        continue
+                    readers = [m2.qualname for n2, m2 in cls.methods.items() if m2 is not m and any(isinstance(x, ast.Attribute) and x.attr == t.attr and isinstance(x.value, ast.Name) and x.value.id == "self" and isinstance(x.ctx, ast.Load) for x in ast.walk(m2.node))]
+                    readers += [m.qualname] if any(isinstance(x, ast.Attribute) and x.attr == t.attr and isinstance(x.value, ast.Name) and x.value.id == "self" and isinstance(x.ctx, ast.Load) for x in ast.walk(m.node)) and not readers and False else []
+                    if not readers:
+                        continue
+                    res.fail(Finding("PERS-HIST", m.module, m.qualname, st, "`self.%s` is computed from what %s is shown (%s) and read by %s, but it is %s: it is not in the state dict, so a freshly built model that loads a trained state dict starts from the constructor's value" % (t.attr, m.qualname, ", ".join(sorted(roots & params)), ", ".join(sorted(set(readers))[:2]), "a non-persistent buffer" if kind == "BUFFER" else "a plain attribute"), construct="data-dependent state %s.%s" % (cls.name, t.attr)))
+    if n < getattr(ctx, "pers_hist_floor", 0):
+        raise AnalysisIncomplete("PERS-HIST: %d attribute assignments outside constructors examined (< 1: Linear.use_cache sets self.using_cache on the pinned tree)" % n)
+    res.ok("%d attribute assignments outside constructors examined" % n, nontrivial=False)
+    return res
+
+
 register(
     "C15",
-    [pers_rng_rule, pers_mut_rule, pers_np_rule, pers_call_rule, pers_stale_rule, pers_shape_rule],
+    [pers_rng_rule, pers_mut_rule, pers_np_rule, pers_call_rule, pers_stale_rule, pers_shape_rule, pers_hist_rule],
     "Dataflow over constructors and evaluation paths. PERS-RNG: every nn.Module constructor is abstractly interpreted with a "
     "taint domain in which random sources (torch.rand*, randperm, randint, multinomial, init.uniform_/normal_..., np.random, and "
     "repository helpers that return them, found interprocedurally) label their results RNG; every store of an RNG-tainted value "
